@@ -149,6 +149,7 @@ class PF(EKF):
         # Upper cases are matrices, lower cases are vectors
         Q = Q if Q is not None else self.Q
         R = R if R is not None else self.R
+        t = self.model.systime if t is None else t
         self.model.set_refpoint(state=x, input=u, t=t)
 
         n = x.size(-1)
